@@ -72,7 +72,11 @@ func NewHTTP2HTTPPlugin(_ PluginContext, options v1.ClientPluginOptions) (Plugin
 	}
 
 	p.s = &http.Server{
-		Handler:           rp,
+		Handler: http.HandlerFunc(func(w http.ResponseWriter, r *http.Request) {
+			// see pkg/util/vhost/http.go: request body and response flow at the same time
+			_ = http.NewResponseController(w).EnableFullDuplex()
+			rp.ServeHTTP(w, r)
+		}),
 		ReadHeaderTimeout: 0,
 	}
 
